@@ -195,7 +195,7 @@ class Ref:
                     raise Unsupported("quantised float island feeding another operator (one step allowed at an output only)")
                 (so,), (zo,) = [x[:1] for x in self.quant(o0)]
                 lo, hi = QRANGE[self.tens(o0)["type"]]
-                q = val[i0].astype(np.float64) / float(np.float32(so))
+                q = np.clip(val[i0].astype(np.float64) / float(np.float32(so)), -1e15, 1e15)     # (an overflowed EXP saturates)
                 r = np.where(q >= 0, np.floor(q + 0.5), np.ceil(q - 0.5))
                 val[o0] = np.clip(r.astype(np.int64) + int(zo), lo, hi)
                 self.has_table_op = True
